@@ -157,12 +157,15 @@ def putDeq (cfg : Cfg) (x : BConn) : BConn :=
 inductive Enq where
   | ok (b : BSess) | full
 
-/-- non-blocking put into the queue the message belongs to -/
+/-- non-blocking put into the queue the message belongs to: the *published* QoS selects the queue
+    (`queue(sess)` is chosen from `msg.QOS` before the fan-out), what is put is the copy capped by
+    the grant of the session's matching subscription at this moment (`sess.applyQOS(msg)`) — so a
+    QoS-1 publish capped to QoS 0 still travels through the stored queue -/
 def enqueue (cfg : Cfg) (b : BSess) (m : Message) (g : Nat) : Enq :=
   if m.qos = 0 then
-    (if b.tempQ.length < cfg.queue then .ok { b with tempQ := b.tempQ ++ [(g, m)] } else .full)
+    (if b.tempQ.length < cfg.queue then .ok { b with tempQ := b.tempQ ++ [(g, applyQOS b m)] } else .full)
   else
-    (if b.storedQ.length < cfg.queue then .ok { b with storedQ := b.storedQ ++ [m] } else .full)
+    (if b.storedQ.length < cfg.queue then .ok { b with storedQ := b.storedQ ++ [applyQOS b m] } else .full)
 
 /-- outcome of a deterministic piece of code -/
 inductive Res1 where
@@ -402,12 +405,15 @@ def setupAndConnack (s : BState) (c : ConnId) (x : BConn) (id : ClientId) (clean
                                           procOut := x.procOut ++ [.connack false 0] }
         .one (s.setConn c (retake x))
 
-/-- retained messages for one filter, queued as one unordered group; `none` = own queue full -/
+/-- retained messages for one filter, queued as one unordered group; `none` = own queue full.
+    Each is capped by the grant of the session's matching subscription at this moment — all the
+    subscriptions of the SUBSCRIBE are already in the tree — (`sess.applyQOS(value)`), always on the
+    temporary queue -/
 def queueRetained (cfg : Cfg) (b : BSess) (ms : List Message) (g : Nat) : Option BSess :=
   match ms with
   | [] => some b
   | m :: rest =>
-    if b.tempQ.length < cfg.queue then queueRetained cfg { b with tempQ := b.tempQ ++ [(g, m)] } rest g
+    if b.tempQ.length < cfg.queue then queueRetained cfg { b with tempQ := b.tempQ ++ [(g, applyQOS b m)] } rest g
     else none
 
 def subscribeRetained (s : BState) (c : ConnId) : List Subscription → Res1
@@ -558,7 +564,8 @@ def ackSent (x : BConn) (cfg : Cfg) (p : Packet) : BConn :=
   | _ => x
 
 /-- try to accept a delivery by the dequeuer: the message must be the head of the stored queue or
-    a member of the first group of the temporary queue, capped with the subscription in force now,
+    a member of the first group of the temporary queue, capped (once more: the queue entry was
+    already capped when it was queued, `enqueue` / `queueRetained`) with the subscription in force now,
     carrying the next packet id that no packet of the session's outgoing store uses (`Client.nextID`) -/
 def acceptDelivery (s : BState) (c : ConnId) (x : BConn) (b : BSess) (m : Message) (id : UInt16) :
     Option BState :=
